@@ -31,9 +31,13 @@ class Stub:
         f.seek(4 * self.n, 1)
 
 
+BOUNDARY = [0, 1, 255, 256, 65535, 65536, 2 ** 32 - 1, 2 ** 32, 2 ** 63 - 1]
+
+
 def files(tier):
     """Enumerate (entries list [(key, rows)], common). Arity 1-4, 0-3 entries, coordinate and common
-    magnitudes independently in each word-size class, row-id arrays of length 0-3 up to 2**32-1."""
+    magnitudes independently in each word-size class (and exactly on every word-size boundary), the widest
+    coordinate in every key position and every coordinate position, row-id arrays of length 0-3 up to 2**32-1."""
     arities = (1, 2, 3, 4)
     for d in arities:
         for n in (0, 1, 2, 3):
@@ -44,14 +48,21 @@ def files(tier):
                     rowsets = list(itertools.product(ROWS, repeat=n))
                     if tier != "thorough" and n == 3:
                         rowsets = rowsets[::5]
-                    for rs in rowsets:
-                        keys = []
-                        for i in range(n):
-                            k = [i] + [0] * (d - 1)
-                            if i == n - 1:
-                                k[-1] = MAG[cw] if d > 1 else MAG[cw] + i
-                            keys.append(tuple(k))
-                        yield [(k, list(r)) for k, r in zip(keys, rs)], MAG[mw] - 1
+                    for ri, rs in enumerate(rowsets):
+                        keys = [[i] + [0] * (d - 1) for i in range(n)]
+                        if n:
+                            # the widest coordinate moves through every key and every coordinate position
+                            ki = ri % n
+                            ci = (ri // n) % d
+                            keys[ki][ci] = MAG[cw] + ki
+                        yield [(tuple(k), list(r)) for k, r in zip(keys, rs)], MAG[mw] - 1
+    # exact word-size boundaries, as coordinate (in a non-last key / non-last position) and as common value
+    for b in BOUNDARY:
+        for c in BOUNDARY:
+            yield [((b, 1), [0, 2]), ((3, 0), [1])], c
+            yield [((5,), [7]), ((b + 0,), [0]) if b != 5 else ((6,), [0])], c
+        yield [], b
+        yield [((2, b, 0), [4, 5, 6])], 1
 
 
 def _entries_dict(ent):
@@ -148,13 +159,18 @@ def check_foreign(IndxIO, ent, common, tmp, st):
 
 def foreign_cases(tier):
     yield [((1,), [3, 5]), ((2,), [1, 4])], 0
-    yield [((1, 0), [200] * 0 + list(range(200))), ((2, 1), list(range(200, 300)))], 0  # lengths 200 then 100: sum > 255
-    yield [((0,), list(range(130))), ((1,), list(range(130, 260)))], 7
+    # narrow row-id words whose *total* exceeds the word although every id and every length fits it
+    # (row ids restart per entry: different columns of a 2-D index share row ids)
+    yield [((1, 0), list(range(200))), ((2, 1), list(range(100))), ((3, 2), [7])], 0
+    yield [((0, 0), list(range(130))), ((1, 1), list(range(130))), ((2, 2), list(range(5)))], 7
+    yield [((1, 0), list(range(40000))), ((2, 1), list(range(30000))), ((3, 2), [1, 2])], 0
     yield [((300, 2), [0, 70000]), ((5, 1), [2 ** 32 - 1])], 65535
     yield [], 9
     yield [((2 ** 40,), [1])], 2 ** 33
+    yield [((255,), [255]), ((0,), [0, 254])], 255
+    yield [((65535, 0), [65535]), ((1, 65535), [0])], 65535
     if tier == "thorough":
-        yield [((i,), list(range(i * 90, i * 90 + 90))) for i in range(4)], 1
+        yield [((i, i), list(range(90))) for i in range(4)], 1
         yield [((i, j), [i * 3 + j]) for i in range(3) for j in range(3)], 255
 
 
